@@ -352,6 +352,7 @@ def r183(ctx):
 
 
 def run(ctx):
+    ctx.rule("R-18.5", "every configuration key is validated and used under the same section path", floor=20)
     ctx.rule("R-18.4", "no `for` variable of the configuration checks is read after its loop has ended", floor=3)
     ctx.rule("R-18.1", "one rejection clause per item of the property statement, integer comparisons normalised, numeric options tested with `is not False`", floor=11)
     ctx.rule("R-18.2", "every returned configuration passed check_config last; scheduler only runs on setup_config's result", floor=2)
@@ -359,11 +360,13 @@ def run(ctx):
     ctx.attempt(r181, ctx)
     ctx.attempt(r182, ctx)
     ctx.attempt(r183, ctx)
-    from .shared import stale_loop_variable
+    from .shared import stale_loop_variable, config_section_agreement
+    ctx.attempt(config_section_agreement, ctx, "R-18.5", " - the setting is validated in one section and used from another")
     ctx.attempt(stale_loop_variable, ctx, "R-18.4", [SETUP], None, " (a clause would validate only the last element)")
 
 
 VARIANTS = [
+    B("c18-cap-checked-in-wrong-section", SETUP, 'intf_cap = config["simulation"]["tis_set"].get("interface_cap", False)', 'intf_cap = config["simulation"].get("interface_cap", False)', "R-18.5", control=True),
     B("c18-wf-clause-after-loop", SETUP, "        for idx, intf_i in enumerate(intf[:-1]):\n            if sh_moves[idx + 1] == \"wf\" and intf_cap <= intf_i:\n                raise TOMLConfigError(\n                    f\"Interface_cap {intf_cap} leaves no room for the 'wf' \"\n                    f\"ensemble with interface {intf_i}\"\n                )", "        for idx, intf_i in enumerate(intf[:-1]):\n            pass\n        if sh_moves[idx + 1] == \"wf\" and intf_cap <= intf_i:\n            raise TOMLConfigError(\n                f\"Interface_cap {intf_cap} leaves no room for the 'wf' \"\n                f\"ensemble with interface {intf_i}\"\n            )", "R-18.4", control=True),
     B("c18-unsorted-accepted", SETUP, '        raise TOMLConfigError("Your interfaces are not sorted!")', '        logger.info("Your interfaces are not sorted!")', "R-18.1", control=True),
     B("c18-duplicates-accepted", SETUP, "    if len(set(intf)) != len(intf):", "    if len(set(intf)) > len(intf):", "R-18.1"),
